@@ -233,11 +233,18 @@ def check_run(world, ctrl, outcome, props, status, val):
                 paired = e["wkind"] == "conc" and prev and prev[-1]["kind"] == "wait" and prev[-1]["wkind"] == "async" and prev[-1]["blocking"]
                 tag = "[KF-C08-mixed] " if paired else ""
                 add("C08", f"{tag}blocked on {e['wkind']} wait with {len(infl)}/{maxc} in flight {infl} ({sorted(kinds)}) while {rdy} ready")
+            unwatched = [x for x in e.get("inflight_kind", []) if x not in e["running"]]
+            if unwatched:
+                add("C08", f"blocking {e['wkind']} wait watches {e['running']} but not the in-flight {unwatched}: their completion frees a slot without waking the scheduler")
             if e["return_when"] != FIRST_COMPLETED and not seq_running:
                 add("C08", f"waits for ALL of {e['running']} with {infl} in flight and no sequential node running")
         if k == "pool_exit" and e["inflight"]:
             add("C17", f"pool closed with {e['inflight']} in flight")
     # ---------------- whole run
+    if kind == "return" and getattr(ctrl, "executor", None) is not None and not ctrl.executor.closed:
+        # (a failing call leaves its pool open in the unchanged code as well: only the normal return is constrained)
+        for p in ("C14", "C17"):
+            add(p, "the call returned normally without closing the worker pool it handed nodes to: the pool outlives the call, so nodes queued on it (by this or a later call) can start after their call has ended / failed")
     for n in world.order:
         cnt = ctrl.entered.count(n)
         if cnt > 1:
